@@ -64,6 +64,10 @@ CHECKS = {
    text="(a) bounds monitor on every error location reported for hundreds of thousands of failing inputs (corpus error! items, mutations, soup, ill-typed builtin calls, multi-byte text around re-lexed selectors/media queries, broken files reached through @import/@use/@forward; three syntaxes; Unicode and ASCII rendering): named file is the entry or a file that was read, begin <= end, lines/columns inside the text the harness supplied, Display starts with `Error: <message>` and never panics, ASCII mode stays ASCII; (b) offline checker of the Logger event log of generated programs against the reference interpreter's trace including file name and 1-based line of every executed @debug/@warn (lines known from the printers), in the entry file and in imported/used files, SCSS and indented; (c) quiet => empty trace; (d) with a custom Logger no byte may appear on fd 1/2 (captured around every compilation)",
    note="identical (location, message) warnings are collapsed on both sides; IoError/FromUtf8Error have no location in the public API and are only checked for renderability",
    technique="runtime monitoring: invariant checks over recorded error objects + offline trace checker of Logger event logs against a reference model; fd 1/2 capture"),
+ "C04": dict(engine="vw+vp",
+   text="reference-flattener monitor: vp/model/flatten.py builds the output tree the way the reference semantics prescribe (children attached to the nearest non-style-rule ancestor, bubbling of @media/@supports/unknown at-rules with a copy of the style rule inside, merged @media escaping the enclosing @media, childless copies when the ancestor already has a visible following sibling, @at-root with every with/without query incl. trimming of contiguous kept ancestors, `&` resolution parent-major with suffixes/repeats/leading combinators, nested properties joined with `-`); the ordered (context, selector, declarations) list read from grass's output by the independent CSS reader must equal the model's, for SCSS and indented prints and both styles",
+   note="trees outside the flattener's fragment are inconclusive; declaration-less blocks are dropped on both sides; selector/query spelling canonicalised",
+   technique="runtime monitoring: reference-model (independent flattener) oracle over outputs of generated rule trees"),
 }
 
 ALL = ["C%02d" % i for i in range(1, 21)]
